@@ -153,6 +153,21 @@ def specInvSq (B C : α) (pol : Pol) : α :=
   | .ordinary => (B - Transc.sqrt (B * B - (4.0 : α) * C)) / (2.0 : α)
   | .extraordinary => (B + Transc.sqrt (B * B - (4.0 : α) * C)) / (2.0 : α)
 
+/-- the spec form evaluated robustly in floating point: the discriminant (never negative over ℝ)
+is clamped at 0 before the square root, so that the Float run yields the coincident root instead of
+NaN next to an optic axis.  Equal to `specInvSq` over ℝ (`specInvSqClamped_eq`). -/
+def specInvSqClamped (B C : α) (pol : Pol) : α :=
+  let disc := B * B - (4.0 : α) * C
+  let disc := if disc < (0.0 : α) then (0.0 : α) else disc
+  match pol with
+  | .ordinary => (B - Transc.sqrt disc) / (2.0 : α)
+  | .extraordinary => (B + Transc.sqrt disc) / (2.0 : α)
+
+def indexAlongSpecClamped (n : Vec3 α) (θ φ : α) (dir : Vec3 α) (pol : Pol) : α :=
+  let b := invSq n
+  let s2 := sqVec (toCrystalFrame θ φ dir)
+  (1.0 : α) / Transc.sqrt (specInvSqClamped (fresnelB s2 b) (fresnelC s2 b) pol)
+
 def indexFromFrameSpec (n : Vec3 α) (s : Vec3 α) (pol : Pol) : α :=
   let b := invSq n
   let s2 := sqVec s
